@@ -16,8 +16,8 @@ import tempfile
 import concurrent.futures
 import vlib
 
-FAMILIES_QUICK = ['secp256k1', 'tedwards-bn254']
-FAMILIES = ['secp256k1', 'bn254', 'bls12381', 'bw6761', 'p256', 'p384', 'tedwards-bn254']
+FAMILIES_QUICK = ['secp256k1', 'tedwards-bn254', 'bls12377-g1', 'bls12377-g2']
+FAMILIES = ['secp256k1', 'bn254', 'bls12381', 'bw6761', 'p256', 'p384', 'tedwards-bn254', 'bls12377-g1', 'bls12377-g2']
 
 
 def desc(c):
@@ -62,9 +62,10 @@ def run(ctx):
         'points are small multiples of the generator and their opposites; scalars are 0..3, r-1, r, r+1 (r and r+1 as non-canonical limbs)',
         'outside a method\'s documented domain the result is unspecified and the case is not judged',
         'the test engine evaluates the gadget code on the BN254 scalar field',
-        'signatures: the edit classes of ToySig.tla on ECDSA (secp256k1, P-256, P-384) and EdDSA (BN254, BLS12-381, BLS12-377, BW6-761 companions); non-canonical ECDSA components are not expressible as gadget witnesses',
+        'signatures: the edit classes of ToySig.tla on ECDSA (secp256k1, P-256, P-384) and EdDSA (BN254, BLS12-381, BLS12-377, BW6-761 companions; the low-order-commitment class on BN254); non-canonical ECDSA components are not expressible as gadget witnesses',
         'dishonest hints: the decomposition / result hints of ScalarMul (native twisted Edwards, emulated short Weierstrass with complete arithmetic) replaced by the strategies of FakeGLV.tla, through the real Groth16 prover',
-        'not covered: pairings and the EVM precompile wrappers (see DESIGN.md 11.2)',
+        'native two-chain gadget sw_bls12377: G1 through the algebra.Curve interface, G2 point methods (Add, AddUnified, Double, Neg), over BW6-761',
+        'pairing checks: only the zero-residue-witness strategy against sw_bls12377.PairingCheck and sw_bls12381.AssertFinalExponentiationIsOne; pairing values themselves and the EVM precompile wrappers are not covered',
     ]
     r = ctx.tlc('CurveOps', 'CurveOps.cfg', workers=1, timeout=900)
     cases = r.beh
@@ -136,6 +137,11 @@ def hint_adversaries(ctx, quick):
         if not quick:
             add(g, 'zeroScalarResult', 'r', 'wrong', 'unsatisfiable')
             add(g, 'unitResult', 'r-1', 'wrong', 'unsatisfiable')
+    # the hinted residue witness of the pairing checks (FakeGLV.tla, residue section): the zero strategy
+    for g in ('pairing-bls12377', 'finalexp-bls12381'):
+        add(g, 'honest', '1', 'right', 'satisfiable')
+        add(g, 'honest', '1', 'wrong', 'unsatisfiable')
+        add(g, 'zeroWitness', '1', 'wrong', 'unsatisfiable')
     res = ctx.harness(['curvehints', '--par', '12'], cases, timeout=3600)
     if len(res) != len(cases):
         raise vlib.Infra('short hint-adversary replay')
@@ -144,7 +150,7 @@ def hint_adversaries(ctx, quick):
         c = cases[rr['id']]
         if rr.get('err'):
             raise vlib.Infra('hint adversary %s: %s' % (c, rr['err']))
-        name = 'scalar multiplication %s strategy=%s scalar=%s claim=%s' % (c['gadget'], c['strategy'], c['scalar'], c['claim'])
+        name = 'hinted gadget %s strategy=%s scalar=%s claim=%s' % (c['gadget'], c['strategy'], c['scalar'], c['claim'])
         ctx.case(key=name, nontrivial=c['strategy'] != 'honest' or c['scalar'] not in ('2', '3'))
         ctx.traces += 1
         if c['strategy'] == 'honest':
@@ -153,7 +159,7 @@ def hint_adversaries(ctx, quick):
                 raise vlib.Infra('honest baseline broken: %s -> %s' % (name, rr))
             ok_honest += 1
         elif rr['solve'] == 'satisfiable' and rr.get('proof') == 'verifies':
-            ctx.report('scalar multiplication hints %s strategy=%s scalar=%s: a wrong result is provable (the Groth16 proof verifies)'
+            ctx.report('hinted gadget %s strategy=%s scalar=%s: a wrong statement is provable (the Groth16 proof verifies / the compiled system is satisfied)'
                        % (c['gadget'], c['strategy'], c['scalar']), {'case': c, 'result': rr, 'model': designs})
     if ok_honest < 4:
         raise vlib.Infra('honest baselines: %d' % ok_honest)
